@@ -609,6 +609,16 @@ func C16() int {
 		}
 	}
 	items = append(items, c16BuiltinPrograms()...)
+	// a value-carrying return nested in a block of a RESULT-LESS function is accepted today (the listed C06 finding
+	// "nested returns unchecked"); as long as such programs are accepted their scripts must be well-formed too
+	// (if the typing defect is repaired they are rejected and drop out: no expectation of acceptance here)
+	for i, body := range []string{
+		"if n > 1 {\n\t\treturn n\n\t}\n\tprint(n)",
+		"for i := 0; i < n; i++ {\n\t\tif i == 1 {\n\t\t\treturn i\n\t\t}\n\t}\n\tprint(n)",
+		"switch n {\n\tcase 2:\n\t\treturn n\n\tdefault:\n\t\tprint(n)\n\t}",
+	} {
+		items = append(items, c16Item{name: fmt.Sprintf("accepted-by-listed-typing-defect nested-return-in-result-less-function#%d", i), src: "func report(n int) {\n\t" + body + "\n}\nreport(2)\nreport(1)\nprint(\"done\")\n"})
+	}
 	for _, tp := range corpus.Tiny() { // sole-facility programs: whatever a facility needs must not depend on another statement
 		items = append(items, c16Item{name: "tiny " + tp.Name, src: tp.Src})
 	}
